@@ -1053,7 +1053,11 @@ class mulgrid(object):
             for olditem, newitem in zip(oldcolname, newcolname):
                 i = self.columnlist.index(self.column[olditem])
                 self.columnlist[i].name = newitem
-                self.column[newitem] = self.column.pop(olditem)
+            # rebuild column and connection dictionaries from the new names
+            # (renaming keys in place can lose columns if names are swapped):
+            self.column = dict([(col.name, col) for col in self.columnlist])
+            self.connection = dict([(tuple([col.name for col in con.column]), con)
+                                    for con in self.connectionlist])
             self.setup_block_name_index()
             self.setup_block_connection_name_index()
             return True
@@ -1086,7 +1090,9 @@ class mulgrid(object):
             for olditem, newitem in zip(oldlayername, newlayername):
                 i = self.layerlist.index(self.layer[olditem])
                 self.layerlist[i].name = newitem
-                self.layer[newitem] = self.layer.pop(olditem)
+            # rebuild layer dictionary from the new names (renaming keys in
+            # place can lose layers if names are swapped):
+            self.layer = dict([(lay.name, lay) for lay in self.layerlist])
             self.setup_block_name_index()
             self.setup_block_connection_name_index()
             return True
